@@ -25,13 +25,15 @@ PT = "_parser._ParseTreeProcessor"
 
 class Line:
     """one line of an abstract text: kind in F (field) K (constant) P (padding) D (directive without expression) M (`---`)
-    C (comment only) B (empty) W (blanks only); `comment`: the text after `#` on this line, if any"""
+    C (comment only) B (empty) W (blanks only) O (`@print _offset_`: a directive whose expression reads the schema);
+    `comment`: the text after `#` on this line, if any"""
 
-    def __init__(self, kind: str, name: str = "", comment: Optional[str] = None, directive: str = "sealed"):
-        self.kind, self.name, self.comment, self.directive = kind, name, comment, directive
+    def __init__(self, kind: str, name: str = "", comment: Optional[str] = None, directive: str = "sealed", value: Any = None):
+        # kind X: a directive with an expression; `value` = ("Rational", 64) / ("Boolean", True) / ("String", "x")
+        self.kind, self.name, self.comment, self.directive, self.value = kind, name, comment, directive, value
 
     def __repr__(self) -> str:
-        body = {"F": "uint8 %s" % self.name, "K": "uint8 %s = 1" % self.name, "P": "void8", "D": "@" + self.directive, "M": "---", "C": "", "B": "", "W": "   "}[self.kind]
+        body = {"F": "uint8 %s" % self.name, "K": "uint8 %s = 1" % self.name, "P": "void8", "D": "@" + self.directive, "M": "---", "C": "", "B": "", "W": "   ", "O": "@print _offset_", "X": "@%s %r" % (self.directive, (self.value or ("", ""))[1])}[self.kind]
         if self.comment is not None:
             body = (body + " " if body else "") + "#" + self.comment
         return body
@@ -64,6 +66,33 @@ class ParserModel:
 
     def fresh(self, **builder_kw: Any) -> Tuple[Any, Any, B.BuilderRun, Any]:
         """(parser instance, builder instance, record of constructions, hook)"""
+        from ..core import dotted as _dotted
+        from .c02 import _layout_hook
+
+        dtb = self.ctx.cls(B.DTB)
+        lh = _layout_hook(self.ctx, dtb.module, dtb)
+
+        def expr_hook(e: ast.expr, f: Folder) -> Any:
+            # layout terms; expression values (`Set`, `Rational`, ...) as inert records that are instances of `Any`
+            r = lh(e, f)
+            if r is not NotImplemented:
+                return r
+            if isinstance(e, ast.Call):
+                name = _dotted(e.func) or ""
+                last = name.split(".")[-1]
+                if last in ("Rational", "Set", "String", "Boolean") and name.split(".")[0] in ("_expression", last):
+                    args = [f.fold(a) for a in e.args]
+                    return Sym(_isa_=frozenset({"Any", last}), _kind_=last, payload=tuple(tuple(a) if isinstance(a, list) else a for a in args))
+                if name == "map" and len(e.args) == 2:
+                    try:
+                        k = f.fold(e.args[0])
+                    except Unfoldable:
+                        k = None
+                    if isinstance(k, ClassInfo):
+                        return [Sym(_isa_=frozenset({"Any", k.name}), _kind_=k.name, payload=(x,)) for x in f.fold(e.args[1])]
+            return NotImplemented
+
+        builder_kw.setdefault("base_hook", expr_hook)
         b, run, hook = B.make_builder(self.ctx, **builder_kw)
         try:
             me = construct(self.ctx, self.pt, b, hook=hook, strict=False)
@@ -104,33 +133,51 @@ def node(text: str = "", **kw: Any) -> Sym:
 class DocRun:
     def __init__(self) -> None:
         self.attrs: List[Tuple[str, str, str]] = []  # (kind, name, doc) in construction order
+        self.operands: List[Tuple[str, str, Any, Any]] = []  # (kind, name, label of the type given, label of the value given)
+        self.offsets: List[Tuple[int, Any]] = []  # (index of the line, what `_offset_` evaluated to there)
         self.composites: List[Tuple[str, List[str], str]] = []  # (kind, attribute names, doc)
         self.raised: Optional[str] = None
         self.result: Any = None
+        self.ctor_log: List[Tuple[str, Dict[str, Any]]] = []  # every composite constructed, with its arguments
+        self.prints: List[Tuple[Any, ...]] = []  # what the print handler received
 
 
 def read_lines(pm: ParserModel, lines: Sequence[Line], final_eol: bool) -> DocRun:
     """the visits parsimonious makes for the text, evaluated; then finalize()"""
     ctx = pm.ctx
-    me, b, run, hook = pm.fresh()
-    out = DocRun()
-    U8 = Sym(_isa_=isa_of(ctx, "_serializable._primitive.UnsignedIntegerType"), _kind_="UnsignedIntegerType", bit_length=8, alignment_requirement=1, label="uint8")
-    V8 = Sym(_isa_=isa_of(ctx, "_serializable._void.VoidType"), _kind_="VoidType", bit_length=8, alignment_requirement=1, label="void8")
-    ONE = Sym(_isa_=frozenset({"Any", "Primitive", "Rational"}), _kind_="Rational", label="1")
+    from ..absint import Recorder
+    from ..layout import TBls
 
-    def child_of(el: Tuple[str, Any], line: Line) -> Any:
+    handler = Recorder("print-handler")
+    me, b, run, hook = pm.fresh(handler=handler)
+    out = DocRun()
+
+    def uint8(label: str) -> Sym:
+        # one type object per statement, so that what reaches the model can be told apart by identity
+        return Sym(_isa_=isa_of(ctx, "_serializable._primitive.UnsignedIntegerType"), _kind_="UnsignedIntegerType", bit_length=8, bit_length_set=TBls.of(8), alignment_requirement=1, label=label)
+
+    def child_of(el: Tuple[str, Any], line: Line, i: int) -> Any:
         if el[0] == "ref" and el[1] == "identifier":
-            return pm.visit(me, hook, "identifier", node(line.directive if line.kind == "D" else line.name), [])
+            return pm.visit(me, hook, "identifier", node({"D": line.directive, "X": line.directive, "O": "print"}.get(line.kind, line.name)), [])
         if el[0] == "ref" and el[1] == "type":
-            return U8
+            return uint8("type@%d" % i)
         if el[0] == "ref" and el[1] == "type_void":
-            return V8
+            return Sym(_isa_=isa_of(ctx, "_serializable._void.VoidType"), _kind_="VoidType", bit_length=8, bit_length_set=TBls.of(8), alignment_requirement=1, label="void@%d" % i)
         if el[0] == "ref" and el[1] == "expression":
-            return ONE
+            if line.kind == "O":
+                # the expression `_offset_`: an identifier that the atom visitor resolves through the statement stream processor
+                ident = pm.visit(me, hook, "identifier", node("_offset_"), [])
+                v = pm.visit(me, hook, "expression_atom", node("_offset_"), [ident])
+                out.offsets.append((i, v))
+                return v
+            if line.kind == "X":
+                k = ctx.cls("_expression._primitive." + line.value[0])
+                return construct(ctx, k, line.value[1], hook=hook)
+            return Sym(_isa_=frozenset({"Any", "Primitive", "Rational"}), _kind_="Rational", label="value@%d" % i)
         return node(" ")
 
-    stmt_rule = {"F": "statement_field", "K": "statement_constant", "P": "statement_padding_field", "D": "statement_directive_without_expression", "M": "statement_service_response_marker"}
-    wrappers = {"F": ["statement_attribute", "statement"], "K": ["statement_attribute", "statement"], "P": ["statement_attribute", "statement"], "D": ["statement_directive", "statement"], "M": ["statement"]}
+    stmt_rule = {"F": "statement_field", "K": "statement_constant", "P": "statement_padding_field", "D": "statement_directive_without_expression", "M": "statement_service_response_marker", "O": "statement_directive_with_expression", "X": "statement_directive_with_expression"}
+    wrappers = {"F": ["statement_attribute", "statement"], "K": ["statement_attribute", "statement"], "P": ["statement_attribute", "statement"], "D": ["statement_directive", "statement"], "M": ["statement"], "O": ["statement_directive", "statement"], "X": ["statement_directive", "statement"]}
     all_lines = list(lines) + ([Line("B")] if final_eol else [])
     try:
         for i, ln in enumerate(all_lines):
@@ -139,7 +186,7 @@ def read_lines(pm: ParserModel, lines: Sequence[Line], final_eol: bool) -> DocRu
             kids: List[Any] = []
             if ln.kind in stmt_rule:
                 rule = stmt_rule[ln.kind]
-                children = [child_of(el, ln) for el in pm.seq_of(rule)] if ln.kind != "M" else []
+                children = [child_of(el, ln, i) for el in pm.seq_of(rule)] if ln.kind != "M" else []
                 st_text = repr(Line(ln.kind, ln.name, None, ln.directive))
                 r = pm.visit(me, hook, rule, node(st_text), children)
                 for w in wrappers[ln.kind]:
@@ -156,6 +203,9 @@ def read_lines(pm: ParserModel, lines: Sequence[Line], final_eol: bool) -> DocRu
         raise AnalysisError("cannot evaluate the parser over the abstract text %r: %s" % (text_of(lines, final_eol), ex))
     for kind, kw in run.attr_log:
         out.attrs.append((kind, str(kw.get("name", "")), kw.get("doc", "")))
+        out.operands.append((kind, str(kw.get("name", "")), getattr(kw.get("data_type"), "label", None), getattr(kw.get("value"), "label", None)))
+    out.ctor_log = list(run.ctor_log)
+    out.prints = [a for _, a, _ in handler.log]
     for kind, kw in run.ctor_log:
         attrs = kw.get("attributes")
         out.composites.append((kind, [getattr(a, "name", "?") for a in (attrs or [])], kw.get("doc", "")))
